@@ -19,7 +19,10 @@ func init() {
 			"harness/registry/zz_verif_simreg_test.go":   "server/internal/registry/zz_verif_simreg_test.go",
 		},
 	}, map[string]propSpec{
+		// main stage: the new registry client (pull + Registry.Push); second stage: the legacy push
+		// (PushModel / uploadBlob / blobUpload.Run) in harness "store"
 		"C09": {level: "exploration", quickS: 50, thoroughS: 840,
-			probes: []string{"pull_success", "pull_failed", "push_success", "push_failed", "push_layer_uploaded", "push_layer_already_present", "push_manifest_accepted", "crash_restarted", "tag_updated"}},
+			probes: []string{"pull_success", "pull_failed", "push_success", "push_failed", "push_layer_uploaded", "push_layer_already_present", "push_manifest_accepted", "crash_restarted", "tag_updated"},
+			extra:  []stageSpec{{harness: "store", quickS: 20, thoroughS: 240}}},
 	})
 }
